@@ -4,6 +4,7 @@ import (
 	"go/ast"
 	"go/token"
 	"go/types"
+	"sort"
 	"strings"
 
 	"sialint/internal/cfgx"
@@ -17,7 +18,7 @@ func init() {
 	register(&Rule{ID: "C11.R2", Prop: "C11", Floor: 5, Doc: "checkpoint, header and block-id checks guard every success exit of the fetch helpers", Run: c11r2})
 	register(&Rule{ID: "C11.R3", Prop: "C11", Floor: 3, Doc: "relay handlers act only after the work and attach tests", Run: c11r3})
 	register(&Rule{ID: "C11.R4", Prop: "C11", Floor: 2, Doc: "RPC dispatchers recover from handler panics", Run: c11r4})
-	register(&Rule{ID: "C11.R6", Prop: "C11", Floor: 4, Doc: "first/last-element accesses of (peer-supplied) lists only after a test of the list's length", Run: c11r6})
+	register(&Rule{ID: "C11.R6", Prop: "C11", Floor: 3, Doc: "first/last-element accesses of (peer-supplied) lists only after a test of the list's length", Run: c11r6})
 	register(&Rule{ID: "C11.R5", Prop: "C11", Floor: 8, Doc: "provable misbehaviour reaches ban, and ban reports to the peer store", Run: c11r5})
 }
 
@@ -604,46 +605,82 @@ func c11r2(c *Ctx) {
 		good := false
 		if len(wconds) > 0 {
 			elseEdge := wconds[0].lt
-			// assignments resp.blocks = X reachable from the else edge without crossing back
+			// where the fetched blocks are kept: a block list copied into the response (a field or a result variable),
+			// or a return whose value holds a local block list
+			isBlockList := func(t types.Type) bool {
+				sl, isSlice := t.(*types.Slice)
+				return isSlice && ir.IsNamed(sl.Elem(), ir.CoreMod+"/types", "Block")
+			}
+			var kept []*cfgx.Node
 			for _, node := range g.Nodes {
 				if node.AST == nil {
 					continue
 				}
 				for _, w := range worker.WritesIn(node.AST, false) {
-					// the fetched blocks are kept: a block list is copied into the response (a field or a result variable)
-					if sl, isSlice := worker.TypeOf(w.LHS).(*types.Slice); !isSlice || !ir.IsNamed(sl.Elem(), ir.CoreMod+"/types", "Block") || w.RHS == nil || worker.IsNil(w.RHS) {
+					if !isBlockList(worker.TypeOf(w.LHS)) || w.RHS == nil || worker.IsNil(w.RHS) {
 						continue
 					}
 					if _, isCall := ast.Unparen(w.RHS).(*ast.CallExpr); isCall {
 						continue
 					}
-					if _, fromElse := worker.ReachableFromEdges([]*cfgx.Edge{elseEdge}, nil)[node]; !fromElse || !worker.OnlyVia(node, []*cfgx.Edge{elseEdge}) {
-						continue
-					}
-					// must be dominated by the exit of a loop comparing block ids with header ids
-					for _, m := range g.Nodes {
-						if m.Block == nil || m.Block.Cond != m.AST || len(m.Succs) != 2 {
-							continue
+					kept = append(kept, node)
+				}
+				if rs, isRet := node.AST.(*ast.ReturnStmt); isRet {
+					holds := false
+					ir.Walk(rs, false, func(x ast.Node) {
+						if id, ok := x.(*ast.Ident); ok {
+							if v, isVar := worker.ObjOf(id).(*types.Var); isVar && !v.IsField() && isBlockList(v.Type()) {
+								holds = true
+							}
 						}
-						be, ok := ast.Unparen(m.AST.(ast.Expr)).(*ast.BinaryExpr)
-						if !ok || (be.Op != token.NEQ && be.Op != token.EQL) || !mentionsText(be.X, ".ID()") || !mentionsText(be.Y, ".ID()") || !mentionsTextDeep(worker, be, "headers") {
-							continue
-						}
-						head, exit, body := enclosingRange(worker, m)
-						if head == nil {
-							continue
-						}
-						// the edge on which the two ids are equal: the only way to the next iteration
-						same := m.Succs[1]
-						if be.Op == token.EQL {
-							same = m.Succs[0]
-						}
-						cut := map[*cfgx.Edge]bool{same: true}
-						if !reachAvoidingEdges(g, body, head, nil, cut) && worker.OnlyVia(node, []*cfgx.Edge{exit}) {
-							good = true
-						}
+					})
+					if holds {
+						kept = append(kept, node)
 					}
 				}
+			}
+			// the exits of loops that compare every block id with the header chain's
+			var exits []*cfgx.Edge
+			for _, m := range g.Nodes {
+				if m.Block == nil || m.Block.Cond != m.AST || len(m.Succs) != 2 {
+					continue
+				}
+				be, ok := ast.Unparen(m.AST.(ast.Expr)).(*ast.BinaryExpr)
+				if !ok || (be.Op != token.NEQ && be.Op != token.EQL) || !mentionsText(be.X, ".ID()") || !mentionsText(be.Y, ".ID()") || !mentionsTextDeep(worker, be, "headers") {
+					continue
+				}
+				head, exit, body := enclosingRange(worker, m)
+				if head == nil {
+					continue
+				}
+				// the edge on which the two ids are equal: the only way to the next iteration
+				same := m.Succs[1]
+				if be.Op == token.EQL {
+					same = m.Succs[0]
+				}
+				if !reachAvoidingEdges(g, body, head, nil, map[*cfgx.Edge]bool{same: true}) {
+					exits = append(exits, exit)
+				}
+			}
+			cut := map[*cfgx.Edge]bool{}
+			for _, e := range exits {
+				cut[e] = true
+			}
+			// below the require height every way to a place where blocks are kept crosses such a loop's exit
+			fromElse := worker.ReachableFromEdges([]*cfgx.Edge{elseEdge}, nil)
+			n := 0
+			good = len(exits) > 0
+			for _, node := range kept {
+				if _, ok := fromElse[node]; !ok {
+					continue
+				}
+				n++
+				if reachAvoidingEdges(g, elseEdge, node, nil, cut) {
+					good = false
+				}
+			}
+			if n == 0 {
+				good = false
 			}
 		}
 		ob.Check(good, nil, "below the require height the fetched blocks are kept without every block's id having been compared with the validated header chain")
@@ -852,25 +889,39 @@ func c11r5(c *Ctx) {
 	}
 	// outline: wrong missing transactions (the second completeness test) and AddBlocks error
 	if cc := clauseOf(f, "RPCRelayV2BlockOutline"); cc != nil {
-		var lenTests []*cfgx.Node
-		for _, n := range g.Nodes {
-			if n.AST == nil || !containsNode(cc, n.AST) || n.Block == nil || n.Block.Cond != n.AST || len(n.Succs) != 2 {
-				continue
-			}
-			if be, ok := ast.Unparen(n.AST.(ast.Expr)).(*ast.BinaryExpr); ok && be.Op == token.GTR && lenOf(f, be.X) != nil && mentionsText(be.X, "missing") {
-				lenTests = append(lenTests, n)
+		// the completeness test that follows the request for the missing transactions: `len(missing) > 0`
+		// (or its complement) evaluated after Peer.SendTransactions on every path
+		var sendNodes []*cfgx.Node
+		for _, call := range f.Calls(false) {
+			if call.Fn != nil && call.Fn.Name() == "SendTransactions" && containsNode(cc, call.Expr) {
+				sendNodes = append(sendNodes, g.NodeContaining(call.Pos()))
 			}
 		}
 		var bad []*cfgx.Edge
 		var pos token.Pos
-		if len(lenTests) >= 2 {
-			last := lenTests[0]
-			for _, n := range lenTests {
-				if n.Pos() > last.Pos() {
-					last = n
+		for _, n := range g.Nodes {
+			if n.AST == nil || !containsNode(cc, n.AST) || n.Block == nil || n.Block.Cond != n.AST || len(n.Succs) != 2 {
+				continue
+			}
+			be, ok := ast.Unparen(n.AST.(ast.Expr)).(*ast.BinaryExpr)
+			if !ok || lenOf(f, be.X) == nil || !mentionsText(be.X, "missing") || !isZero(f, be.Y) {
+				continue
+			}
+			after := false
+			for _, sn := range sendNodes {
+				if sn != nil && sn != n && g.DominatedByNode(n, sn) {
+					after = true
 				}
 			}
-			bad, pos = []*cfgx.Edge{last.Succs[0]}, last.Pos()
+			if !after {
+				continue
+			}
+			switch be.Op {
+			case token.GTR, token.NEQ:
+				bad, pos = append(bad, n.Succs[0]), n.Pos()
+			case token.EQL:
+				bad, pos = append(bad, n.Succs[1]), n.Pos()
+			}
 		}
 		check(f, "wrong-missing-transactions", bad, pos)
 		var bad2 []*cfgx.Edge
@@ -954,7 +1005,14 @@ func c11r6(c *Ctx) {
 			continue
 		}
 		g := f.Graph()
-		visited := false
+		// the positional accesses, grouped by the list they subscript (one obligation per list and function,
+		// however many times its first/last element is read)
+		type access struct {
+			ix *ast.IndexExpr
+			n  *cfgx.Node
+		}
+		groups := map[string][]access{}
+		var keys []string
 		for _, n := range g.Nodes {
 			if n.AST == nil {
 				continue
@@ -978,11 +1036,23 @@ func c11r6(c *Ctx) {
 				if !positional {
 					return
 				}
-				if !visited {
-					c.VisitGraph(f)
-					visited = true
+				k := ir.ExprString(ix.X)
+				if _, seen := groups[k]; !seen {
+					keys = append(keys, k)
 				}
-				ob := c.Ob(f, "positional-index-after-length-test", ix.Pos())
+				groups[k] = append(groups[k], access{ix, n})
+			})
+		}
+		if len(keys) == 0 {
+			continue
+		}
+		c.VisitGraph(f)
+		sort.Strings(keys)
+		for _, k := range keys {
+			ob := c.Ob(f, "positional-index-after-length-test:"+k, groups[k][0].ix.Pos())
+			good := true
+			for _, a := range groups[k] {
+				ix, n := a.ix, a.n
 				var edges []*cfgx.Edge
 				for _, m := range g.Nodes {
 					if m.AST == nil || m.Block == nil || m.Block.Cond != m.AST || len(m.Succs) != 2 {
@@ -1037,8 +1107,15 @@ func c11r6(c *Ctx) {
 						edges = append(edges, m.Succs[0])
 					}
 				}
-				ob.Check(len(edges) > 0 && f.OnlyVia(n, edges), nil, "%s is evaluated at %s on a path that did not pass a test of the list's length: a peer that sends a shorter (or empty) list makes the index go out of range, and the sync workers do not recover from panics", ir.ExprString(ix), c.P.Pos(ix.Pos()))
-			})
+				if !(len(edges) > 0 && f.OnlyVia(n, edges)) {
+					good = false
+					ob.Bad(nil, "%s is evaluated at %s on a path that did not pass a test of the list's length: a peer that sends a shorter (or empty) list makes the index go out of range, and the sync workers do not recover from panics", ir.ExprString(ix), c.P.Pos(ix.Pos()))
+					break
+				}
+			}
+			if good {
+				ob.OK("%d access(es), each after a test of the list's length", len(groups[k]))
+			}
 		}
 	}
 }
